@@ -26,6 +26,10 @@ CANARIES = {
     'e101-forms': ('wn.validate',
                    "(f['id'] for e in _entries(lex) for f in _forms(e) if f.get('id')),",
                    "(f['id'] for e in _entries(lex)[:1] for f in _forms(e) if f.get('id')),"),
+    'shared-ids-merged': ('wn.validate', "              if r['target'] not in ids['sense'] and r['target'] not in ids['synset']}",
+                          "              if r['target'] not in ids['sense'].__ior__(ids['synset'])}"),
+    'w403-ignores-dctype': ('wn.validate', "            (ss['id'], r['relType'], r['target'], _get_dc_type(r))\n            for ss, r in _synset_relations(lex)",
+                            "            (ss['id'], r['relType'], r['target'], None)\n            for ss, r in _synset_relations(lex)"),
     'select-category': ('wn.validate', "if code in selectset or code[0] in selectset]",
                         "if code in selectset or code[:2] in selectset]"),
 }
@@ -534,6 +538,81 @@ def h_select(c1: int, junk: str, t1: str, r1: str) -> bool:
     return rt.verdict(ok)
 
 
+def _same_items(x, y):
+    kx, ky = [k for k in x], [k for k in y]
+    if len(kx) != len(ky):
+        return False
+    for k in kx:
+        if not _has(ky, k):
+            return False
+        cx, cy = x[k], y[k]
+        fx, fy = [f for f in cx], [f for f in cy]
+        if len(fx) != len(fy):
+            return False
+        for f in fx:
+            if not _has(fy, f) or cx[f] != cy[f]:
+                return False
+    return True
+
+
+IND_TARGETS = ['b', 't', 'zz', 's']          # a synset, a sense, nothing, the source itself
+IND_TYPES = ['domain_topic', 'antonym', 'hypernym', 'also']
+
+
+def h_independent(kt1: int, ky1: int, kt2: int, ky2: int) -> bool:
+    """
+    pre: 0 <= kt1 < 4 and 0 <= ky1 < 4 and 0 <= kt2 < 4 and 0 <= ky2 < 4
+    pre: kt1 == rt.part(4)[0]
+    post: _
+    """
+    # 2-safety: what a check reports does not depend on which other checks were selected (the
+    # id tables built by validate() are shared by all checks of one call)
+    t1, y1 = IND_TARGETS[0], IND_TYPES[0]
+    t2, y2 = IND_TARGETS[0], IND_TYPES[0]
+    for n in range(4):
+        if kt1 == n:
+            t1 = IND_TARGETS[n]
+        if ky1 == n:
+            y1 = IND_TYPES[n]
+        if kt2 == n:
+            t2 = IND_TARGETS[n]
+        if ky2 == n:
+            y2 = IND_TYPES[n]
+    lex = _lex([_entry('e', 'w', [_sense('s', 'a', [_rel(t1, y1), _rel(t2, y2)]), _sense('t', 'b')]),
+                _entry('f', 'w', [_sense('u', 'zz')])],
+               [_synset('a', relations=[_rel('b', 'hypernym')]), _synset('b', pos='v'),
+                _synset('c', ili='in')])
+    ok = True
+    full = V.validate(lex, select=['E', 'W'], progress_handler=None)
+    for c in ALL_CODES:
+        alone = V.validate(lex, select=[c], progress_handler=None)
+        ok = ok and _same_items(alone[c]['items'], full[c]['items'])
+    return rt.verdict(ok)
+
+
+def h_w403_mixed(b1: bool, b2: bool, b3: bool, b4: bool, d1: bool, d2: bool, d3: bool, d4: bool) -> bool:
+    """
+    post: _
+    """
+    # four relations of one synset: same type, target b or c, with or without dc:type
+    slots = [('b' if b else 'c', 'x' if d else None) for b, d in ((b1, d1), (b2, d2), (b3, d3), (b4, d4))]
+    lex = _lex([], [_synset('a', relations=[_rel(t, 'also', d) for t, d in slots]),
+                    _synset('b'), _synset('c')])
+    got = _run(lex, 'W403')
+    if got is None:
+        return False
+    dups = []
+    for i in range(4):
+        for j in range(i + 1, 4):
+            if slots[i] == slots[j]:
+                dups.append(slots[i])
+    ok = _keys_match(got, ['a'] if dups else [])
+    if ok and dups:
+        item = got['a']
+        ok = item['type'] == 'also' and _has(dups, (item['target'], item['dc:type'] if 'dc:type' in item else None))
+    return rt.verdict(ok)
+
+
 def h_reverse_table(k: int) -> bool:
     """
     pre: 0 <= k < 200
@@ -609,6 +688,16 @@ OBLIGATIONS = [
                 'lexicon broken in solver-chosen ways (dangling references, duplicate synset id)',
        bounds='report keys compared with the documented table order; every selected check runs '
               'without raising'),
+    Ob('independence', 'h_independent', parts=4, quick=dict(timeout=200),
+       thorough=dict(timeout=600), canary=[('shared-ids-merged', 0)],
+       functions=['wn.validate.validate', 'all 18 check functions (shared id tables)'],
+       symbolic='targets (a synset, a sense, nothing, the source) and types (' + ', '.join(IND_TYPES)
+                + ') of two sense relations',
+       bounds='for every check: items when selected alone = items in a run of all 18 checks'),
+    Ob('W403-mixed-dctype', 'h_w403_mixed', quick=dict(timeout=200), thorough=dict(timeout=600),
+       canary=[('w403-ignores-dctype', 0)], functions=['wn.validate._redundant_relation', '_multiples'],
+       symbolic='four relations of one synset: target (2 values) and presence of dc:type each',
+       bounds='redundant = same source, type, target and dc:type; never raises'),
     Ob('reverse-table', 'h_reverse_table', quick=dict(timeout=60), canary=None,
        functions=['wn.constants.REVERSE_RELATIONS'], symbolic='table index',
        bounds='every key of the table'),
